@@ -603,6 +603,12 @@ class C14(Check):
         out.nontrivial = True
         out.info['shape'], out.info['d'], out.info['why'] = shape, list(d), case['why']
 
+    def classify(self, case, out):
+        # open finding F-I3 (IDL-faithful): uniq(x, index) on a constant array returns n-1, not index[n-1]
+        if out.fails and all(f['clause'] == 'uniq-index-constant' for f in out.fails):
+            return 'uniq_constant_with_index'
+        return None
+
     def summarise(self, case):
         c = dict(case)
         if isinstance(c.get('x'), list) and len(c['x']) > 24:
